@@ -31,13 +31,7 @@ type snapshot struct {
 }
 
 func (m *model) snap() snapshot {
-	repo := m.w.Repos["A"]
-	s := snapshot{refs: map[string]string{}}
-	refs, _ := repo.ListRefs("refs/")
-	for _, r := range refs {
-		h, _ := repo.ResolveRef(r)
-		s.refs[r] = string(h)
-	}
+	s := snapshot{refs: m.allRefs()}
 	cfg, _ := os.ReadFile(filepath.Join(m.dir, "A", ".git", "config"))
 	s.config = string(cfg)
 	s.clocks = strings.Join(world.ClockValues(filepath.Join(m.dir, "A", ".git")), ",")
